@@ -346,6 +346,8 @@ class World:
             return list  # the class object: `type(x) is list` / `is str` are then decided by CPython identity
         if isinstance(v, SV) and v.ty.kind in ("int", "str", "bool"):
             return {"int": int, "str": str, "bool": bool}[v.ty.kind]
+        if isinstance(v, SV) and v.ty.kind == "val" and hasattr(ex, "to_val"):
+            return TypeOfVal(v)  # template mode: the class of an opaque value, only ever compared with class objects
         raise OutOfSubset("type()")
 
     def py_repr(self, v, ex):
@@ -440,6 +442,15 @@ class World:
 
     def closure_attr_store(self, ex, clo, attr, v, node):
         raise OutOfSubset("attribute store on a function value")
+
+
+class TypeOfVal:
+    """type(x) of an opaque value x: `type(x) is C`, `type(x) == C`, `type(x) in (C, D)` become the uninterpreted
+    predicate exact_type_C(x) (the same test on the same value gives the same answer; distinct classes exclude each other
+    only as far as a proof needs it, which none does)"""
+
+    def __init__(self, v):
+        self.v = v
 
 
 class OpaqueFn:
